@@ -81,7 +81,6 @@ def gen(ctx):
             ("arith-sub", "%s -= 1" % f, "1 as $x | %s |= . - $x" % f),
             ("arith-mul", "%s *= 2" % f, "2 as $x | %s |= . * $x" % f),
             ("alt-upd", "%s //= (3, 4)" % f, "(3, 4) as $x | %s |= (. // $x)" % f),
-            ("opt", "(%s)? |= (%s)" % (f, u), "(try (%s |= (%s)) catch null) as $r | if $r == null then (%s)? |= (%s) else (%s)? |= (%s) end" % (f, u, f, u, f, u)),
             ("bind", "(%s as $x | %s) |= (%s)" % (rng.choice(["(0, 1)", "\"a\"", "(\"a\",\"b\")", "empty"]), rng.choice([".[$x]?", ".[$x]", "."]), u), None),
             ("ite", "(if %s then %s else %s end) |= (%s)" % (rng.choice([".a?", "true", "false", "(true, false)", "empty"]), f, gg, u), None),
             ("alt", "(%s // %s) |= (%s)" % (f, gg, u), "if first((%s) // false) then %s |= (%s) else %s |= (%s) end" % (f, f, u, gg, u)),
